@@ -274,6 +274,7 @@ int32, uint32).  The classes are those of C04 / C14, read off what the generator
 * `-gorm` without `-sql` is a usage error ⇒ `Out`; a malformed case or a run that writes nothing
   (no selected type has a constant) ⇒ `Out`;
 * `-bit` ⇒ `F_enumBitMap` (undefined `_<t>_map`);
+* two generated types whose names ToCamelCaseGO maps to the same identifier ⇒ `F_enumTableClash` (redeclared tables);
 * an identifier of the input package that collides with a name the template introduces (an import
   name such as `fmt` / `json`, a listed constant `x`, a one-letter lower-case type) ⇒ `F_enumIdentClash`;
 * two constants with the same value or the same trimmed name ⇒ `F_enumDupKey` (duplicate map keys);
@@ -315,12 +316,20 @@ def PkgCase.hasClash (p : PkgCase) : Bool :=
     p.tablesOf.any (fun e => e.2.any (fun c => c.name == ['x']) ||
       (match e.1 with | [ch] => ch.isLower | _ => false))
 
+/-- two of the types the run generates for get the same table identifiers `_<camelCase T>_max …`: their names differ
+    only in what ToCamelCaseGO erases (`Color` / `color`, `HTTPState` / `HttpState`, `My_Type` / `MyType`).  The emitted
+    declarations collide — in the all-in-one file and just as well across the per-type files of one package -/
+def PkgCase.hasTableClash (p : PkgCase) : Bool :=
+  let ts := p.tablesOf.map (·.1)
+  ts.any (fun a => ts.any (fun b => a ≠ b && camelGO a == camelGO b))
+
 def PkgCase.hasDup (p : PkgCase) : Bool :=
   p.tablesOf.any (fun e => !(decide (valuesT e.2).Nodup && decide (stringsT e.1 e.2).Nodup))
 
 def c01Region (p : PkgCase) : String :=
   if !p.wellFormed || (p.gorm && !p.sql) || p.tablesOf.isEmpty then "Out"
   else if p.bit then "F_enumBitMap"
+  else if p.hasTableClash then "F_enumTableClash"
   else if p.hasClash then "F_enumIdentClash"
   else if p.hasDup then "F_enumDupKey"
   else "WF"
@@ -329,7 +338,7 @@ def c01Region (p : PkgCase) : String :=
 def c01Model (p : PkgCase) : Nat × Bool × Bool :=
   if p.gorm && !p.sql then (1, false, false)
   else (0, !p.tablesOf.isEmpty,
-        (!p.hasClash || p.tablesOf.isEmpty) && p.tablesOf.all (fun e => compiles p.bit e.1 (declared e.1 p.blocks) e.2))
+        (!p.hasClash || p.tablesOf.isEmpty) && !p.hasTableClash && p.tablesOf.all (fun e => compiles p.bit e.1 (declared e.1 p.blocks) e.2))
 
 /-! ## the property's answer to one call of a history, from the declaration alone
 
